@@ -184,6 +184,15 @@ impl Expression {
   pub fn type_is_str(&self) -> bool {
     matches!(self, Self::StringName(_) | Self::Variable(_, Type::Id(TypeNameId::STR)))
   }
+
+  /// Whether the value may be a pointer, so that equality on it must be identity (`ref.eq` in wasm).
+  fn type_is_reference(&self) -> bool {
+    match self {
+      Self::Int31Literal(_) => true,
+      Self::Variable(_, t) => !matches!(t, Type::Int32),
+      Self::Int32Literal(_) | Self::StringName(_) | Self::FnName(_, _) => false,
+    }
+  }
 }
 
 pub const ZERO: Expression = Expression::Int32Literal(0);
@@ -357,6 +366,12 @@ impl Statement {
               e1.pretty_print(collector, heap, symbol_table, str_table);
               collector.push(' ');
               collector.push_str(operator.as_str());
+              // `[1] == 1` is true in JS: a pointer must never be coerced to compare it with an i31.
+              if matches!(operator, BinaryOperator::EQ | BinaryOperator::NE)
+                && (e1.type_is_reference() || e2.type_is_reference())
+              {
+                collector.push('=');
+              }
               collector.push(' ');
               e2.pretty_print(collector, heap, symbol_table, str_table);
             }
